@@ -84,8 +84,11 @@ func BuildRequest(v primitive.ProtocolVersion, stream int16, kind ReqKind, idem 
 		if !idem {
 			second = fmt.Sprintf("UPDATE ks1.t SET l = l + [1] WHERE k = '%s'", tok)
 		}
-		return frame.NewFrame(v, stream, &message.Batch{Type: primitive.BatchTypeLogged, Consistency: cons, Children: []*message.BatchChild{
-			{Query: fmt.Sprintf(idemInsert, tok)}, {Query: second}}})
+		children := []*message.BatchChild{{Query: fmt.Sprintf(idemInsert, tok)}, {Query: second}}
+		if !idem && len(tok) > 0 && tok[len(tok)-1]%2 == 1 { // the non-idempotent child comes first for every other token
+			children[0], children[1] = children[1], children[0]
+		}
+		return frame.NewFrame(v, stream, &message.Batch{Type: primitive.BatchTypeLogged, Consistency: cons, Children: children})
 	}
 	panic("unknown kind")
 }
@@ -210,6 +213,17 @@ func OutcomeFor(o model.Outcome, tok string, v primitive.ProtocolVersion) fakeca
 			m.FailureReasons = []*primitive.FailureReason{{Endpoint: []byte{127, 0, 0, 1}, Code: primitive.FailureCodeUnknown}}
 		}
 		return fakecass.Err(n, m)
+	case model.WriteFailureCas:
+		m := &message.WriteFailure{ErrorMessage: msg, Consistency: primitive.ConsistencyLevelSerial, Received: 1, BlockFor: 2, NumFailures: 1, WriteType: primitive.WriteTypeCas}
+		if v.SupportsReadWriteFailureReasonMap() {
+			m.FailureReasons = []*primitive.FailureReason{{Endpoint: []byte{127, 0, 0, 1}, Code: primitive.FailureCodeUnknown}}
+		}
+		return fakecass.Err(n, m)
+	case model.UnknownErrorCode:
+		b := []byte{0, 0, 0x17, 0, byte(len(msg) >> 8), byte(len(msg))}
+		b = append(b, msg...)
+		b = append(b, 0, 8, 0, 0, 0, 1, 0, 0, 0, 2) // <cl><received><blockfor>
+		return fakecass.Outcome{Name: n, RawErrBody: b}
 	case model.Invalid:
 		return fakecass.Err(n, &message.Invalid{ErrorMessage: msg})
 	case model.Syntax:
@@ -326,6 +340,25 @@ func DecodeReply(comp string, f *rawcql.Frame) ReplyInfo {
 	fr, err := rawcql.DecodeWith(comp, f)
 	if err != nil {
 		ri.Err = err
+		// an ERROR frame the reference codec refuses (unknown error code, write type CAS): code and message read by hand
+		if f.OpCode == primitive.OpCodeError && f.Flags&^primitive.HeaderFlagCompressed == 0 {
+			b := f.Body
+			if f.Flags.Contains(primitive.HeaderFlagCompressed) {
+				if pb, derr := fakecass.Decompress(comp, b); derr == nil {
+					b = pb
+				}
+			}
+			if len(b) >= 6 {
+				n := int(b[4])<<8 | int(b[5])
+				if 6+n <= len(b) {
+					ri.ErrCode = primitive.ErrorCode(int32(b[0])<<24 | int32(b[1])<<16 | int32(b[2])<<8 | int32(b[3]))
+					ri.ErrMsg = string(b[6 : 6+n])
+					ri.Kind = fmt.Sprintf("Error:undecodable(0x%04x)", int32(ri.ErrCode))
+					ri.Tok = fakecass.FindToken([]byte(ri.ErrMsg))
+					ri.Err = nil
+				}
+			}
+		}
 		return ri
 	}
 	switch m := fr.Body.Message.(type) {
